@@ -710,7 +710,10 @@ int __wrap_clock_gettime(clockid_t id, struct timespec *ts)
     if (!SERIAL())
         return __real_clock_gettime(id, ts);
     LOCK();
-    g_vclock += g_tick;
+    /* an actor that only polls (no progress for a while) and keeps reading the
+     * clock is in a time-bounded spin: let its time pass quickly, so that the
+     * spin ends long before the polling could be taken for a stuck run */
+    g_vclock += (me >= 0 && idle_of(me) > IDLE_T) ? 1000 * g_tick : g_tick;
     int64_t v = g_vclock;
     UNLOCK();
     ts->tv_sec = v / 1000000000LL;
